@@ -43,6 +43,7 @@ Mutants this was built against (scratch worktree, never /repo):
  H1 harmless: heads preserved-order loop rewritten as a list comprehension,
     `set(head_candidates)` -> `frozenset(...)`                          -> clean
 """
+import hashlib
 import os
 
 from vlib import env
@@ -78,67 +79,75 @@ TARGETS = ["t0", "t1"]
 # script generation
 # --------------------------------------------------------------------------
 
+def _edit_op(rng, b):
+    r = rng.random()
+    fi = rng.randrange(1, 5)
+    if r < 0.42:
+        return ["edit", b, rng.randrange(2, 5), rng.randrange(4)]
+    if r < 0.50:
+        return ["chmod", b, rng.randrange(2, 5)]
+    if r < 0.62:
+        return ["mv", b, fi, rng.randrange(2, 6), rng.random() < 0.4]
+    if r < 0.68:
+        return ["rm", b, fi]
+    if r < 0.77:
+        return ["add", b, fi, rng.randrange(2, 6), "d" if fi == 1 else rng.choice("ffl"),
+                rng.randrange(4), fi != 1 and rng.random() < 0.3]
+    if r < 0.86:
+        return ["kind", b, rng.randrange(2, 5)]
+    if r < 0.92:
+        return ["revert", b, fi]
+    return ["revive", b, fi, rng.randrange(1, 4)]
+
+
 def gen_script(rng, linear=False, max_commits=8):
+    """history script: an initial commit on b0, early branching, then rounds of
+    (a few tree edits | identical edit on two branches) followed by commit or by
+    merge(s) + post-merge tweaks + commit"""
     ops = []
     branches = ["b0"]
-    ncommits = 1
-    # initial tree on b0
     for fi in (1, 2, 3, 4):
-        if rng.random() < 0.75:
-            ops.append(["add", "b0", fi, rng.randrange(2, 6), "d" if fi == 1 else rng.choice("ffl"),
+        if rng.random() < 0.9:
+            ops.append(["add", "b0", fi, fi + 1, "d" if fi == 1 else rng.choice("fffl"),
                         rng.randrange(4), fi != 1 and rng.random() < 0.3])
     ops.append(["commit", "b0"])
-    n = rng.randrange(6, 40)
-    pending = {"b0": 0}
-    for _ in range(n):
-        if ncommits >= max_commits:
-            break
+    ncommits = 1
+    if not linear:
+        branches.append("b1")
+        ops.append(["branch", "b0", "b1"])
+        if rng.random() < 0.5:
+            branches.append("b2")
+            ops.append(["branch", "b0", "b2"])
+    while ncommits < max_commits:
         b = rng.choice(branches)
         r = rng.random()
-        fi = rng.randrange(1, 5)
-        if r < 0.22:
-            ops.append(["edit", b, fi, rng.randrange(4)])
-        elif r < 0.28:
-            ops.append(["chmod", b, fi])
-        elif r < 0.36:
-            ops.append(["mv", b, fi, rng.randrange(2, 6), rng.random() < 0.4])
-        elif r < 0.41:
-            ops.append(["rm", b, fi])
-        elif r < 0.48:
-            ops.append(["add", b, fi, rng.randrange(2, 6), "d" if fi == 1 else rng.choice("ffl"),
-                        rng.randrange(4), fi != 1 and rng.random() < 0.3])
-        elif r < 0.53:
-            ops.append(["kind", b, fi])
-        elif r < 0.58:
-            ops.append(["revert", b, fi])
-        elif r < 0.62:
-            ops.append(["revive", b, fi, rng.randrange(1, 4)])
-        elif r < 0.80 or linear:
+        if not linear and r < 0.12:
+            # identical parallel change (cherry-pick by content)
+            o = rng.choice([x for x in branches if x != b])
+            fi, c = rng.randrange(2, 5), rng.randrange(4)
+            ops += [["edit", b, fi, c], ["commit", b], ["edit", o, fi, c], ["commit", o]]
+            ncommits += 2
+            continue
+        for _ in range(rng.choice((1, 1, 2, 2, 3))):
+            ops.append(_edit_op(rng, b))
+        if linear or rng.random() < 0.55:
             ops.append(["commit", b])
             ncommits += 1
-        elif r < 0.86 and len(branches) < 3:
-            nb = "b%d" % len(branches)
-            branches.append(nb)
-            ops.append(["branch", b, nb])
-        elif len(branches) > 1:
-            src = rng.choice([x for x in branches if x != b])
-            if rng.random() < 0.8:
-                ops.append(["merge", b, src])
-            else:
-                ops.append(["addparent", b, src])
-            # post-merge tweaks: revert a file to the basis, re-edit to pool content
-            k = rng.random()
-            if k < 0.3:
-                ops.append(["revert", b, rng.randrange(1, 5)])
-            elif k < 0.5:
-                ops.append(["edit", b, rng.randrange(2, 5), rng.randrange(4)])
-            if rng.random() < 0.8:
-                ops.append(["commit", b])
-                ncommits += 1
-    for b in branches:
-        if ncommits < max_commits + 2 and rng.random() < 0.7:
-            ops.append(["commit", b])
-            ncommits += 1
+            continue
+        others = [x for x in branches if x != b]
+        rng.shuffle(others)
+        nmerge = 2 if (len(others) > 1 and rng.random() < 0.3) else 1
+        for src in others[:nmerge]:
+            ops.append(["merge" if rng.random() < 0.8 else "addparent", b, src])
+        k = rng.random()
+        if k < 0.3:
+            ops.append(["revert", b, rng.randrange(1, 5)])
+        elif k < 0.5:
+            ops.append(["edit", b, rng.randrange(2, 5), rng.randrange(4)])
+        elif k < 0.6:
+            ops.append(_edit_op(rng, b))
+        ops.append(["commit", b])
+        ncommits += 1
     return ops
 
 
@@ -194,9 +203,10 @@ class World:
                 fid = FIDS.index(ie.file_id) + 1
                 par = 0 if ie.parent_id is None else FIDS.index(ie.parent_id) + 1
                 if kind == "file":
-                    c = ("f", bool(wt.is_executable(path)), wt.get_file_sha1(path).decode())
+                    ap = self._abspath(wt, path)
+                    c = ("f", bool(os.stat(ap).st_mode & 0o100), hashlib.sha1(open(ap, "rb").read()).hexdigest())
                 elif kind == "symlink":
-                    c = ("l", False, wt.get_symlink_target(path))
+                    c = ("l", False, os.readlink(self._abspath(wt, path)))
                 else:
                     c = ("d", False, "")
                 snap[fid] = (c[0], par, ie.name, c[1], c[2])
@@ -209,7 +219,11 @@ class World:
         if wt is None:
             self.skipped += 1
             return
-        done = getattr(self, "op_" + kind)(wt, *op[2:])
+        if kind == "branch":
+            done = self.op_branch(wt, *op[2:])
+        else:
+            with wt.lock_write():
+                done = getattr(self, "op_" + kind)(wt, *op[2:])
         if done is False:
             self.skipped += 1
         else:
@@ -348,7 +362,7 @@ class World:
         self.wts[new] = wt.controldir.sprout(os.path.join(self.base, new)).open_workingtree()
 
     def op_merge(self, wt, src):
-        from breezy.errors import PointlessMerge
+        from breezy.workingtree import PointlessMerge
         o = self.wts.get(src)
         if o is None or len(wt.get_parent_ids()) > 2:
             return False
@@ -402,7 +416,7 @@ def observe(world):
                     else:
                         c = ("d", False, "")
                     attrs[fid] = (c[0], par, ie.name, c[1], c[2])
-            out["commits"].append(dict(n=n, parents=[num[p] for p in pm[rid]],
+            out["commits"].append(dict(n=n, parents=[num[p] for p in pm[rid] if p != b"null:"],
                                        wparents=[num[p] for p in wparents],
                                        snap={str(k): list(v) for k, v in snap.items()},
                                        inv={str(k): v for k, v in inv.items()},
@@ -459,7 +473,7 @@ def run_script(fmt, ops):
     for op in ops:
         w.apply(op)
     if not w.commits:
-        w.op_commit(w.wts["b0"])
+        w.apply(["commit", "b0"])
     return w
 
 
